@@ -99,9 +99,10 @@ def build_model(spec):
         name = 'property_x' if pc[0] == 'h' else 'property_z'
         sig = layer_values(spec, pc[0])[lay[pc[1]]]*pc[2]
         kw[name][:, :, pc[1]] = zoo.to_mapping(np.array(sig), mapping)
-    if spec.get('perm'):
+    if spec.get('perm') in (True, 'mu'):
         kw['mu_r'] = np.broadcast_to(layer_values(spec, 'mu')[lay],
                                      shape).copy()
+    if spec.get('perm') in (True, 'eps'):
         kw['epsilon_r'] = np.broadcast_to(layer_values(spec, 'eps')[lay],
                                           shape).copy()
     return emg3d.Model(grid, mapping=mapping, **kw), lay
@@ -199,8 +200,10 @@ def reference(spec, sref, rec5, mrec, freqs, hyp=()):
     import empymod
     ch = layer_values(spec, 'h')
     cv = layer_values(spec, 'v')
-    mu = layer_values(spec, 'mu') if spec.get('perm') else None
-    ep = layer_values(spec, 'eps') if spec.get('perm') else None
+    mu = layer_values(spec, 'mu') if spec.get('perm') in (True, 'mu') \
+        else None
+    ep = layer_values(spec, 'eps') if spec.get('perm') in (True, 'eps') \
+        else None
     cols = [x for x in (ch, cv, mu, ep) if x is not None]
     keep = [0] + [k for k in range(1, ch.size)
                   if any(x[k] != x[k-1] for x in cols)]
@@ -211,6 +214,7 @@ def reference(spec, sref, rec5, mrec, freqs, hyp=()):
         inp['aniso'] = np.sqrt(ch[sel]/cv[sel])     # sqrt(rho_v/rho_h)
     if mu is not None:
         inp['mpermH'] = mu[sel]
+    if ep is not None:
         inp['epermH'] = ep[sel]
     src = sref['five'] if 'len' in hyp else sref['src']
     with warnings.catch_warnings():
@@ -237,7 +241,7 @@ DOM = {
     'w': [('geo', 'alt'), ('rnd', 'geo'), ('uni', 'uni')],
     'z': ['one', 'split'],
     'vals': ['fix', 'rnd'],
-    'perm': [False, True],
+    'perm': [False, True, 'eps', 'mu'],
     'src': list(SOURCES),
     'rtypes': list(RTYPES),
     'relative': [False, True],
